@@ -160,23 +160,23 @@ theorem twoFam_laws : Laws twoFam where
     subst this
     exact ⟨_, _, twoDestroy_empty h, rfl, rfl, rfl⟩
 
-/-- socket event-loop handle -/
-def sockhFam : Family Two Unit Empty where
+/-- socket event-loop handle: init / add_ctx (hand a context over to the loop) / destroy -/
+def sockhFam : Family SockH Unit Unit where
   init f _ h := sockhInit f h
-  op _ _ k _ := nomatch k
+  op f s _ h := sockhAddCtx f s h
   destroy := sockhDestroy
-  ownM := Two.owned
+  ownM := SockH.owned
   ownF := zeroFd
-  wf o := o = { a := .own, b := .own }
+  wf := SockH.wf
   dead o := o = {}
 
 theorem sockhFam_laws : Laws sockhFam where
-  init_ok f _ h := init_law (sockhInit_contract f h) rfl rfl rfl rfl
-  op_ok _ _ k := nomatch k
+  init_ok f _ h := init_law (sockhInit_contract f h) ⟨rfl, rfl, nc_empty_wf, rfl⟩
+    (by simp [sockhFam, SockH.owned, NC.owned, NPool.owned, MPool.owned, Cell.owned]) rfl rfl
+  op_ok f s _ h hw := (sockhAddCtx_contract f s h hw).weak
   destroy_live s h hw := by
-    have : s = { a := .own, b := .own } := hw
-    subst this
-    exact ⟨_, _, sockhDestroy_built h, by simp [sockhFam, Two.owned, Cell.owned], by simp [sockhFam, zeroFd], rfl⟩
+    obtain ⟨h', hr, hm, hf, hi⟩ := sockhDestroy_wf s h hw
+    exact ⟨_, h', hr, hm, by simp [sockhFam, zeroFd, hf], hi⟩
   destroy_dead s h hd := by
     have : s = {} := hd
     subst this
